@@ -1,3 +1,4 @@
+\* P level + M level
 CONSTANTS
   defaultInitValue = defaultInitValue
 INIT TraceInit
